@@ -408,3 +408,19 @@ def has_odd_translation(attrs):
         else:
             todo.extend(v.entries)
     return False
+
+
+def has_special_in_token(attrs):
+    """input class: some UNQUOTED value part is not a plain token (contains one of  | : , ] } [ { = ' " * ( )  or white space, is empty,
+    or starts with `.` / `_`) - e.g. `** {val` (white space between a spread operator and a bracket makes `{val` a "variable"),
+    `a"b`, `x=` ... ; serialize() writes the part verbatim and the text tokenises differently"""
+    from django_components.util.tag_parser import TagValue
+    todo = [a.value for a in attrs]
+    while todo:
+        v = todo.pop()
+        if isinstance(v, TagValue):
+            if any(p.quoted is None and not tok_ok(p.value) for p in v.parts):
+                return True
+        else:
+            todo.extend(v.entries)
+    return False
